@@ -95,7 +95,8 @@ impl Loop {
 
     fn next_step(&mut self, exe: &Arc<Mutex<Box<dyn CommandExecutor>>>, buf: &mut Buffer, caret: &mut Caret) -> Option<EngineResult<CallbackAction>> {
         let is_running = if self.from < self.to { self.i < self.to } else { self.i > self.to };
-        if !is_running {
+        // a step of 0 never reaches `to`: such a loop does not run (it used to repeat its command for ever)
+        if !is_running || self.step == 0 {
             return None;
         }
         let cur_parameter = ((self.i - self.from) as usize) % self.parameters.len();
